@@ -19,15 +19,15 @@ import (
 // valid values fail with a range error. Every strconv.ParseInt/ParseUint call in parser/lexer.go
 // must therefore satisfy three clauses, each a necessary condition of "decodes like protoc":
 //
-//   base-explicit  the base is a constant 8, 10 or 16 (or a variable only ever assigned those);
-//   sign-free      the callee is ParseUint, or every rune of the argument is established to be a
-//                  digit of the base by a guard that structurally dominates the point where the
-//                  argument string is built (if/else polarity, tag-less case clause, early-exit
-//                  guard), with the rune not reassigned in between; guards are *evaluated* over
-//                  all rune values 0..0x2FF, not pattern-matched;
-//   bits-adequate  the largest value the digit group can denote (base^digits-1, or the bound K of
-//                  an immediately following `i > K` rejection) is representable in the requested
-//                  bit size (signed for ParseInt).
+//	base-explicit  the base is a constant 8, 10 or 16 (or a variable only ever assigned those);
+//	sign-free      the callee is ParseUint, or every rune of the argument is established to be a
+//	               digit of the base by a guard that structurally dominates the point where the
+//	               argument string is built (if/else polarity, tag-less case clause, early-exit
+//	               guard), with the rune not reassigned in between; guards are *evaluated* over
+//	               all rune values 0..0x2FF, not pattern-matched;
+//	bits-adequate  the largest value the digit group can denote (base^digits-1, or the bound K of
+//	               an immediately following `i > K` rejection) is representable in the requested
+//	               bit size (signed for ParseInt).
 func rp4IntConversions(w *World) {
 	w.rule("RP4")
 	p := w.pkg("parser")
